@@ -805,4 +805,134 @@ Proof.
   - apply overlap_block_blk4.
 Qed.
 
+(* ------------------------------------------------------------------ *)
+(* whole matrices: base_two_symm assembly of the pairing tables         *)
+(* ------------------------------------------------------------------ *)
+Definition dshell : shell F := mkShell F 0 0 0 0 [] [] false [] [].
+
+Lemma nth_prep basis i : (i < length basis)%nat -> nth i (map (prep K) basis) (dummy_p K) = prep K (nth i basis dshell).
+Proof.
+  intros Hi. rewrite (nth_indep _ (dummy_p K) (prep K dshell)) by (now rewrite map_length).
+  apply map_nth.
+Qed.
+
+(* any kernel whose processed blocks are pairing tables: the assembled matrix is made of these tables *)
+Lemma two_symm_of_blocks (blockf : shell F -> shell F -> list (list (list (list F)))) (Ip : gprim -> gprim -> F)
+      (basis : list (shell F)) :
+  (forall sa sb, In sa basis -> In sb basis ->
+     pblockF blockf (prep K sa) (prep K sb) = outer (pair_spec Ip) (descr sa) (descr sb)) ->
+  two_symm_integral K 0 (fadd K) (fmul K) blockf basis None
+  = two_symm_blocks 0 (length basis) (fun i j =>
+      outer (pair_spec Ip) (descr (nth i basis dshell)) (descr (nth j basis dshell))).
+Proof.
+  intros H. rewrite two_symm_integral_unfold. cbv zeta. rewrite map_length.
+  apply two_symm_blocks_ext_le. intros i j Hi Hj _.
+  rewrite (nth_prep basis i Hi), (nth_prep basis j Hj). apply H; apply nth_In; assumption.
+Qed.
+
+(* the mirrored assembly of the tables of a symmetric pairing is the full table over the concatenation *)
+Lemma hcat_outer {D} (f : D -> D -> F) (x : list D) (dss : list (list D)) : dss <> [] ->
+  hcat (map (fun ds => map (fun a => map (f a) ds) x) dss) = map (fun a => map (f a) (concat dss)) x.
+Proof.
+  induction dss as [|d0 rest IH]; [congruence|]. intros _. destruct rest as [|d1 rest'].
+  - cbn [map hcat concat]. now rewrite app_nil_r.
+  - change (hcat (map (fun ds => map (fun a => map (f a) ds) x) (d0 :: d1 :: rest')))
+      with (map (fun r12 : list F * list F => let '(r1, r2) := r12 in r1 ++ r2)
+              (combine (map (fun a => map (f a) d0) x)
+                       (hcat (map (fun ds => map (fun a => map (f a) ds) x) (d1 :: rest'))))).
+    rewrite IH by discriminate. rewrite combine_map_both, map_map. apply map_ext. intros a.
+    change (concat (d0 :: d1 :: rest')) with (d0 ++ concat (d1 :: rest')).
+    rewrite (map_app (f a) d0). reflexivity.
+Qed.
+
+Lemma transpose_outer {D} (f : D -> D -> F) (x y : list D) : x <> [] ->
+  transpose 0 (map (fun a => map (f a) y) x) = map (fun b => map (fun a => f a b) x) y.
+Proof.
+  intros Hx. unfold transpose.
+  assert (Eh : length (hd [] (map (fun a => map (f a) y) x)) = length y).
+  { destruct x as [|a0 x']; [congruence|]. cbn [map hd]. apply map_length. }
+  rewrite Eh. destruct y as [|b0 y']; [reflexivity|].
+  rewrite (map_as_mk (fun b => map (fun a => f a b) x) (b0 :: y') b0).
+  apply mk_ext; intros c Hc. rewrite map_map. apply map_ext; intros a.
+  rewrite (nth_indep _ 0 (f a b0)) by (rewrite map_length; exact Hc). now rewrite map_nth.
+Qed.
+
+Lemma two_symm_blocks_full {D} (f : D -> D -> F) n (ds : nat -> list D) :
+  (forall a b, f a b = f b a) -> (forall i, (i < n)%nat -> ds i <> []) ->
+  two_symm_blocks 0 n (fun i j => map (fun a => map (f a) (ds j)) (ds i))
+  = map (fun a => map (f a) (concat (mk n ds))) (concat (mk n ds)).
+Proof.
+  intros Hsym Hne. unfold two_symm_blocks, vcat.
+  destruct n as [|n']; [reflexivity|].
+  rewrite concat_map_map, map_mk'. f_equal. apply mk_ext; intros i Hi.
+  rewrite <- (hcat_outer f (ds i) (mk (S n') ds)) by (unfold mk; cbn; discriminate).
+  rewrite map_mk'. f_equal. apply mk_ext; intros j Hj.
+  destruct (Nat.leb i j); [reflexivity|].
+  rewrite transpose_outer by (now apply Hne). apply map_ext; intros b. apply map_ext; intros a. apply Hsym.
+Qed.
+
+(* number of functions of a shell: segments x (components | spherical rows) *)
+Lemma length_concat_const {B} (l : list (list B)) R :
+  (forall x, In x l -> length x = R) -> length (concat l) = (length l * R)%nat.
+Proof.
+  induction l as [|x l IH]; intros H; [reflexivity|]. cbn [concat length]. rewrite app_length.
+  rewrite (H x (or_introl eq_refl)), IH by (intros y Hy; apply H; now right). lia.
+Qed.
+
+Lemma descr_length s : length (descr s) = (nseg s * nrows s)%nat.
+Proof.
+  rewrite descr_mk. rewrite (length_concat_const _ (nrows s)).
+  - now rewrite mk_length.
+  - intros x Hx. unfold mk in Hx. apply in_map_iff in Hx. destruct Hx as [m [<- _]]. apply mk_length.
+Qed.
+
+Lemma nrows_eq s : nrows s = if s_sph s then length (labels_of s) else ncomp s.
+Proof.
+  unfold nrows, rows_of. destruct (s_sph s); [|reflexivity].
+  unfold shell_transform, sph_transform. now rewrite !map_length.
+Qed.
+
+(* a shell that has functions at all *)
+Definition shell_wf (s : shell F) : Prop :=
+  comps_ok s /\ (0 < nseg s)%nat /\ (s_sph s = true -> labels_of s <> []).
+
+Lemma descr_nonempty s : shell_wf s -> descr s <> [].
+Proof.
+  intros [Hok [Hseg Hlab]] E. apply (f_equal (@length _)) in E. rewrite descr_length, nrows_eq in E.
+  cbn [length] in E. pose proof (ncomp_pos s Hok).
+  destruct (s_sph s).
+  - specialize (Hlab eq_refl). destruct (labels_of s); [congruence|]. cbn [length] in E. lia.
+  - lia.
+Qed.
+
+Lemma descr_basis_mk basis : descr_basis basis = concat (mk (length basis) (fun i => descr (nth i basis dshell))).
+Proof. unfold descr_basis. now rewrite (map_as_mk descr basis dshell). Qed.
+
+Lemma two_symm_full (blockf : shell F -> shell F -> list (list (list (list F)))) (Ip : gprim -> gprim -> F)
+      (basis : list (shell F)) :
+  (forall x y, Ip x y = Ip y x) -> Forall shell_wf basis ->
+  (forall sa sb, In sa basis -> In sb basis ->
+     pblockF blockf (prep K sa) (prep K sb) = outer (pair_spec Ip) (descr sa) (descr sb)) ->
+  two_symm_integral K 0 (fadd K) (fmul K) blockf basis None
+  = outer (pair_spec Ip) (descr_basis basis) (descr_basis basis).
+Proof.
+  intros Hsym Hwf H. rewrite (two_symm_of_blocks blockf Ip basis H). rewrite descr_basis_mk.
+  unfold outer. apply (two_symm_blocks_full (pair_spec Ip)).
+  - intros a b. now apply pair_spec_sym.
+  - intros i Hi. apply descr_nonempty. rewrite Forall_forall in Hwf. apply Hwf. now apply nth_In.
+Qed.
+
+(* (ii) overlap_integral = the table of pairings of the SAME descriptor list that the evaluation
+   model evaluates, in the same order *)
+Theorem same_function_overlap (basis : list (shell F)) :
+  1 + 1 <> 0 -> Forall shell_wf basis ->
+  (forall sa sb, In sa basis -> In sb basis -> exps_ok sa sb) ->
+  overlap_integral K basis None = outer (pair_spec Iov) (descr_basis basis) (descr_basis basis).
+Proof.
+  intros H2 Hwf Hexp. unfold overlap_integral. apply two_symm_full; [|exact Hwf|].
+  - intros x y. apply Imom_sym.
+  - intros sa sb Ha Hb. rewrite Forall_forall in Hwf.
+    apply same_function_pblock_overlap; auto; now apply Hwf.
+Qed.
+
 End P.
